@@ -93,6 +93,12 @@ def run(ctx):
                                 "defaultdict", "collections.OrderedDict", "OrderedDict",
                                 "collections.Counter", "Counter", "collections.deque",
                                 "deque", "itertools.count", "count"))
+                        if mutable and isinstance(v, ast.Dict) and v.keys and \
+                                all(isinstance(k, ast.Constant) for k in v.keys) and \
+                                not interp._module_name_mutated(mod, t.id):
+                            # a literal-keyed table nothing stores into: a
+                            # constant, not state
+                            mutable = False
                         if mutable:
                             found_state[("module " + mname, t.id)] = (mod, node)
         for node in ast.walk(mod.tree):
@@ -312,6 +318,9 @@ def _sweep_inputs(ctx):
                         bad = "%s read at %s:%d" % (x[1], site[0], site[1])
                 if x[0] in ("param",) or (x[0] == "unknown"):
                     bad = "the value %s" % show(x)[:40]
+                    if x[0] == "param" and x[1] in ("config", "options"):
+                        # the command line is the same for a restarted server
+                        bad = None
                 if bad and bad not in seen:
                     seen.add(bad)
                     ctx.ob("R11.sweep", "sweep argument depends on %s" % bad, False, e,
